@@ -1,8 +1,14 @@
 //go:build verif
 
 // Contracts for package builder, read by /verif/govc (contract-based deductive verification).
+
 // Comments and pure specification functions only; compiled only with -tags verif.
 package builder
+
+import parser "github.com/acekingke/yaccgo/Parser"
+
+// spec_rhsText(rp, n): the display names of the first n right-hand-side identifiers, each followed by a blank
+func spec_rhsText(rp []*parser.Idendity, n int) string { panic("spec") }
 
 // ---------------------------------------------------------------------------------------------
 // C19: a failed generation never damages an existing output file.
@@ -122,6 +128,9 @@ package builder
 //@ loop 0: decreases len(b.vnode.G.ProductoinRules) - i
 
 // C11 / C17: the code-to-symbol switch and the two trace tables
+//@ axiom RHS0: forall rp []*parser.Idendity :: spec_rhsText(rp, 0) == ""
+//@ axiom RHSS: forall rp []*parser.Idendity, n int :: 0 <= n && n < len(rp) ==> spec_rhsText(rp, n+1) == spec_rhsText(rp, n) + (parser.RemoveTempName(rp[n].Name) + " ")
+
 //@ func (*TemplateBuilder).buildTranslate
 //@ props C11 C17 C06 C01 C02
 //@ requires b != nil && wfBuilder(b.vnode) && len(b.vnode.rules) + 1 == len(b.vnode.G.ProductoinRules)
@@ -141,3 +150,7 @@ package builder
 //@ loop 2: invariant 1 <= i
 //@ loop 2: decreases len(b.vnode.G.ProductoinRules) - i
 //@ loop 3: invariant oneRule == b.vnode.rules[i-1] && 1 <= i && i < len(b.vnode.G.ProductoinRules)
+// ... and the right-hand side printed is the display names of ALL right-hand-side symbols of that rule, in order
+//@ loop 3: invariant [C17] rightPartString == spec_rhsText(oneRule.RighPart, idx3)
+//@ emits [C17] "%s -> %s" arg2 == spec_rhsText(b.vnode.rules[i-1].RighPart, len(b.vnode.rules[i-1].RighPart))
+//@ use RHS0, RHSS
